@@ -39,7 +39,7 @@ def run(ctx):
     vlib.model_check_many(ctx, [
         dict(module_rel="set/CuckooResize.tla", cfg_text=open(os.path.join(vlib.SPEC, "set", "CuckooResize_coded.cfg")).read().replace("K = 7", "K = 4" if q else "K = 5"), name="CuckooResize_coded_small", workers=8, timeout=3000),
         dict(module_rel="set/CuckooResize.tla", cfg_rel="set/CuckooResize_intended.cfg", name="CuckooResize_intended", workers=8, timeout=3000)], par=2)
-    r = vlib.model_check(ctx, "set/CuckooResize.tla", "set/CuckooResize_coded.cfg", simulate="num=2000000", expect_violation="NoLoss", workers=4, timeout=600)
+    r = vlib.model_check(ctx, "set/CuckooResize.tla", "set/CuckooResize_coded.cfg", simulate="num=2000000", expect_violation="NoLoss", workers=1, timeout=600, extra=("-seed", "7"))
     jobs = []
     # 2. the model's counter-example (hash functions chosen by TLC) replayed on the real CuckooSet
     st = re.findall(r"/\\ h1 = <<([\d, ]+)>>", r["out"]); st2 = re.findall(r"/\\ h2 = <<([\d, ]+)>>", r["out"])
